@@ -582,9 +582,9 @@ func c05Cursor(c *core.Ctx) {
 func c05LastBlock(c *core.Ctx) {
 	num := [][]string{{"NUM"}}
 	checkOrdered(c, "C05-lastblock", []orderedSpec{
-		{"bridgesync", "processor", "getLastProcessedBlockWithTx", "BLOCK", "DESC", nil, num},
-		{"l1infotreesync", "processor", "getLastProcessedBlockWithTx", "BLOCK", "DESC", nil, num},
-		{"lastgersync", "processor", "GetLastProcessedBlock", "BLOCK", "DESC", nil, num},
+		{"bridgesync", "processor", "getLastProcessedBlockWithTx", "BLOCK", "DESC", nil, num, nil},
+		{"l1infotreesync", "processor", "getLastProcessedBlockWithTx", "BLOCK", "DESC", nil, num, nil},
+		{"lastgersync", "processor", "GetLastProcessedBlock", "BLOCK", "DESC", nil, num, nil},
 	})
 }
 
